@@ -3,6 +3,7 @@ package props
 import (
 	"encoding/json"
 	"fmt"
+	"github.com/buildbuildio/pebbles/common"
 	"reflect"
 	"sort"
 	"strings"
@@ -72,6 +73,9 @@ func (p c02) Gen(c *run.Ctx, idx int) (json.RawMessage, error) {
 	prof.HostileStrings = cu.spec.Data.Hostile
 	if idx%4 == 1 {
 		prof.PFragment, prof.PFragReuse = 0.25, 0.5
+	}
+	if idx%16 == 10 {
+		prof.PRootTypename = 1
 	}
 	if idx%8 == 6 {
 		prof.PDupKey = 0.3
@@ -349,7 +353,17 @@ func (p c02) Exec(c *run.Ctx, idx int, raw json.RawMessage) []run.Result {
 		walk = func(sts []*planner.QueryPlanStep) {
 			for _, st := range sts {
 				ss := svcByURL[st.URL]
-				if ss == nil {
+				if st.URL == common.InternalServiceName {
+					// the gateway's own step (__typename of the root, __schema, __type): never sent anywhere, and
+					// it may hold nothing but fields of that kind
+					for _, sel := range st.SelectionSet {
+						// (the planner also parks there the part of a root node selection which needs no service)
+						if f, ok := sel.(*ast.Field); ok && !strings.HasPrefix(f.Name, "__") && f.Name != "node" {
+							addV("client-field-in-the-gateway's-own-step", fmt.Sprintf("field %s is planned into the internal step", f.Name))
+						}
+					}
+					res.Counters["internal_steps"]++
+				} else if ss == nil {
 					addV("step-routed-to-unknown-service", fmt.Sprintf("step url %q query %s", st.URL, st.QueryString))
 				} else {
 					distinctSubs[hashStr(svcName[st.URL], st.QueryString)] = true
